@@ -829,6 +829,7 @@ theorem inv_begin (m0 : Option (List Str)) (s : PState) (i : Nat) (ok : Bool) (h
           · exact Or.inr (Or.inr (Or.inr h'))
       · rw [if_neg hstale]
         have hlt : s.lastPersisted < snap.version := by omega
+        generalize (ok && !s.dirMissing) = ok
         cases ok with
         | true =>
           simp only [if_true]
@@ -1047,6 +1048,8 @@ theorem inv_step (m0 : Option (List Str)) (s : PState) (st : Step) (h : Inv m0 s
   | rename ok => exact inv_rename m0 s ok h
   | commit => exact inv_commit m0 s h
   | dirLoad => exact inv_dirLoad m0 s h
+  | mkdir =>
+    exact ⟨h.lp_le, h.taken_le, h.top_exists, h.top, h.top_unique, h.pending_sub, h.inflight_ok, h.file, h.accounted⟩
 
 theorem inv_run (m0 : Option (List Str)) (s : PState) (steps : List Step) (h : Inv m0 s) : Inv m0 (run s steps) := by
   induction steps generalizing s with
@@ -1566,5 +1569,62 @@ theorem parseHostFile_fileText (r : Mem) (s : Snap) (hclean : ∀ n ∈ snapName
   | cons n t ih =>
     simp only [List.flatMap_cons, parseLine_clean n (hclean n (by simp)), List.singleton_append]
     rw [ih (fun x hx => hclean x (List.mem_cons_of_mem _ hx))]
+
+/-! ### a directory load only adds -/
+
+theorem setLocked_mono (b : Mem) (k : Str) :
+    (∀ e ∈ b.m, e ∈ (setLocked b k).1.m) ∧ (∀ e ∈ b.wild, e ∈ (setLocked b k).1.wild) ∧ (setLocked b k).1.w = b.w := by
+  unfold setLocked
+  simp only
+  split
+  · exact ⟨fun e h => h, fun e h => h, rfl⟩
+  · split
+    · exact ⟨fun e h => h, fun e h => (mem_insertKey _ _ _).mpr (Or.inl h), rfl⟩
+    · exact ⟨fun e h => (mem_insertKey _ _ _).mpr (Or.inl h), fun e h => h, rfl⟩
+
+theorem loadName_mono (b : Mem) (n : Str) :
+    (∀ e ∈ b.m, e ∈ (loadName b n).m) ∧ (∀ e ∈ b.wild, e ∈ (loadName b n).wild) ∧ (loadName b n).w = b.w := by
+  unfold loadName
+  simp only
+  split
+  · exact ⟨fun e h => h, fun e h => h, rfl⟩
+  · exact setLocked_mono b _
+
+theorem loadNames_mono (b : Mem) (ns : List Str) :
+    (∀ e ∈ b.m, e ∈ (loadNames b ns).m) ∧ (∀ e ∈ b.wild, e ∈ (loadNames b ns).wild) ∧ (loadNames b ns).w = b.w := by
+  induction ns generalizing b with
+  | nil => exact ⟨fun e h => h, fun e h => h, rfl⟩
+  | cons n t ih =>
+    have h1 := loadName_mono b n
+    have h2 := ih (loadName b n)
+    have hf : loadNames b (n :: t) = loadNames (loadName b n) t := rfl
+    rw [hf]
+    exact ⟨fun e h => h2.1 e (h1.1 e h), fun e h => h2.2.1 e (h1.2.1 e h), by rw [h2.2.2, h1.2.2]⟩
+
+theorem parseHostFile_mono (b : Mem) (text : Str) :
+    (∀ e ∈ b.m, e ∈ (parseHostFile b text).m) ∧ (∀ e ∈ b.wild, e ∈ (parseHostFile b text).wild) ∧
+    (parseHostFile b text).w = b.w := loadNames_mono b _
+
+theorem dirLoadMem_mono (b : Mem) (main : Option (List Str)) (temps : List (List Str)) :
+    (∀ e ∈ b.m, e ∈ (dirLoadMem b main temps).m) ∧ (∀ e ∈ b.wild, e ∈ (dirLoadMem b main temps).wild) ∧
+    (dirLoadMem b main temps).w = b.w := by
+  unfold dirLoadMem
+  simp only
+  have h1 : ∀ m1 : Mem, (∀ e ∈ b.m, e ∈ m1.m) ∧ (∀ e ∈ b.wild, e ∈ m1.wild) ∧ m1.w = b.w →
+      (∀ e ∈ b.m, e ∈ (temps.foldl (fun m ls => parseHostFile m (fileText ls)) m1).m) ∧
+      (∀ e ∈ b.wild, e ∈ (temps.foldl (fun m ls => parseHostFile m (fileText ls)) m1).wild) ∧
+      (temps.foldl (fun m ls => parseHostFile m (fileText ls)) m1).w = b.w := by
+    induction temps with
+    | nil => intro m1 h; exact h
+    | cons t ts ih =>
+      intro m1 h
+      simp only [List.foldl_cons]
+      apply ih
+      have hp := parseHostFile_mono m1 (fileText t)
+      exact ⟨fun e he => hp.1 e (h.1 e he), fun e he => hp.2.1 e (h.2.1 e he), by rw [hp.2.2, h.2.2]⟩
+  apply h1
+  cases main with
+  | none => exact ⟨fun e h => h, fun e h => h, rfl⟩
+  | some ls => exact parseHostFile_mono b _
 
 end SdnsVerif.Lemmas.Blocklist
